@@ -1,12 +1,12 @@
 (* C15 — the headline: the monitor accepts the wire trace of every disciplined run of the
    model (assembly of the per-rule lemmas). *)
 From Coq Require Import List Arith ZArith Bool Lia.
-From Verif Require Import lib.Wire c15.Lts c15.Model c15.Spec c15.Proofs c15.Proofs_Disc c15.Proofs_Mon c15.Proofs_RCtx c15.Proofs_R3 c15.Proofs_R5 c15.Proofs_R4 c15.Proofs_R9 c15.Proofs_R7.
+From Verif Require Import lib.Wire c15.Lts c15.Model c15.Spec c15.Proofs c15.Proofs_Disc c15.Proofs_Mon c15.Proofs_RCtx c15.Proofs_R3 c15.Proofs_R5 c15.Proofs_R4 c15.Proofs_R9 c15.Proofs_R7 c15.Proofs_R6.
 Import ListNotations.
 Local Open Scope Z_scope.
 
 (* rules whose coupling is not (yet) proved *)
-Definition missing_rules : list Z := [6; 8; 10].
+Definition missing_rules : list Z := [8; 10].
 
 Lemma monitor_accepts_model_partial_l : forall c sched fin,
   cfg_wf c = true -> nonneg (c_ntypes c) = true -> Disc c sched ->
@@ -17,6 +17,6 @@ Proof.
   - intros r Hr Nm. cbn in Hr. unfold missing_rules in Nm. cbn in Nm.
     destruct Hr as [<-|[<-|[<-|[<-|[<-|[<-|[<-|[<-|[]]]]]]]]];
       try (exfalso; apply Nm; tauto).
-    + exact rule1_ok. + exact rule2_ok. + exact rule3_ok. + exact rule4_ok. + exact rule5_ok. + exact rule7_ok.
+    + exact rule1_ok. + exact rule2_ok. + exact rule3_ok. + exact rule4_ok. + exact rule5_ok. + exact rule6_ok. + exact rule7_ok.
   - intros r Hr Nm. cbn in Hr. unfold missing_rules in Nm. cbn in Nm. destruct Hr as [<-|[<-|[]]]; try (exfalso; apply Nm; tauto). exact rule9_ok.
 Qed.
